@@ -110,6 +110,8 @@ func Leaves(level int) []Leaf {
 	add("map-str", "map", J{"type": "object", "additionalProperties": J{"type": "string"}}, nil, true)
 	add("map-obj", "map", J{"type": "object", "additionalProperties": J{"type": "object", "properties": J{"k": J{"type": "integer"}}}}, nil, true)
 	add("object-addl-typed", "object", J{"type": "object", "properties": J{"k": J{"type": "string"}}, "additionalProperties": J{"type": "integer"}}, nil, true)
+	add("object-addl-num", "object", J{"type": "object", "properties": J{"k": J{"type": "string"}}, "additionalProperties": J{"type": "number"}}, nil, true)
+	add("object-addl-bool", "object", J{"type": "object", "properties": J{"k": J{"type": "string"}}, "additionalProperties": J{"type": "boolean"}}, nil, true)
 	add("object-addl-false", "object", J{"type": "object", "properties": J{"k": J{"type": "string"}}, "additionalProperties": false}, nil, true)
 	if level >= 1 {
 		add("string-min-max-eq", "string", merge(str, "minLength", 3, "maxLength", 3), "abc", true)
@@ -126,6 +128,7 @@ func Leaves(level int) []Leaf {
 		add("map-any", "map", J{"type": "object", "additionalProperties": true}, nil, true)
 		add("object-nested", "object", J{"type": "object", "properties": J{"o": J{"type": "object", "properties": J{"k": J{"type": "string", "minLength": 1}}}}}, nil, true)
 		add("object-addl-str", "object", J{"type": "object", "properties": J{"k": J{"type": "string"}}, "additionalProperties": J{"type": "string"}}, nil, true)
+		add("object-addl-arr", "object", J{"type": "object", "properties": J{"k": J{"type": "string"}}, "additionalProperties": J{"type": "array", "items": J{"type": "string"}}}, nil, true)
 		add("object-addl-true", "object", J{"type": "object", "properties": J{"k": J{"type": "string"}}, "required": A{"k"}, "additionalProperties": true}, nil, true)
 		add("multi-type", "any", J{"type": A{"string", "integer"}}, nil, false)
 	}
